@@ -12,6 +12,8 @@ type World struct {
 	Prop     string
 	Run      func(k *kernel.K)
 	MaxSteps int
+	// WarmCrypto: the world uses TLS; run the crypto warm-up once per worker process.
+	WarmCrypto bool
 	// Real / Stub document which components ran real code and which were stubbed.
 	Real []string
 	Stub []string
